@@ -179,6 +179,7 @@ class ApiHarness:
             return
         self._closed = True
         try:
+            self._stop_timers()
             if getattr(self, "_entered", False):
                 self.client.__exit__(None, None, None)      # lifespan shutdown + portal stop
         finally:
@@ -359,5 +360,17 @@ class ApiHarness:
                 ws.send_json({"jsonrpc": "2.0", "method": "textDocument/didClose", "params": {"textDocument": {"uri": uri}}})
         except WebSocketDisconnect as ex:
             out["close_code"] = ex.code
+        self._stop_timers()
         self.client.portal.call(self._settle, 10)       # type: ignore[union-attr]
         return out
+
+    @staticmethod
+    def _stop_timers():
+        """pylsp debounces linting on threading.Timer threads (0.5 s).  Nothing here observes lint results, and a timer that fires
+        while the framework forks its workers can leave a lock held in the child (deadlock), so pending timers are cancelled
+        and joined."""
+        import threading
+        for t in threading.enumerate():
+            if isinstance(t, threading.Timer):
+                t.cancel()
+                t.join(5)
